@@ -37,20 +37,28 @@ Qed.
 Print Assumptions C12_new_node_slot.
 
 (* clone_with_prefixes = clone_node, then on an element clone exactly the inherited in-scope bindings the subtree needs and
-   does not declare itself are inserted (whatever order the hash map is walked in) *)
+   does not declare itself are inserted (whatever order the hash map is walked in); an element in no namespace is not given
+   the inherited default namespace *)
 Theorem C12_clone_with_prefixes_effect :
   forall nm st n z order st1 c,
     cur st n = Some z -> m_clone st n = (st1, MDone (Some c)) -> is_type st1 c TElement = true ->
     let inherited := inherited_prefixes (ns_empty_prefix nm) (ns_xml_prefix nm) (ns_no_ns nm) (ns_xml_ns nm) (ns_of_name nm) z in
-    let to_add := filter (fun d => match map_get_node st1 KNs c (fst d) with Some _ => false | None => true end) inherited in
+    let no_ns_top := match val st1 c with
+                     | Some (VElement name) => N.eqb (ns_of_name nm name) (ns_no_ns nm)
+                     | _ => false
+                     end in
+    let to_add := filter (fun d => match map_get_node st1 KNs c (fst d) with
+                                   | Some _ => false
+                                   | None => negb (no_ns_top && N.eqb (fst d) (ns_empty_prefix nm))   (* no default namespace on an element in no namespace *)
+                                   end) inherited in
     same_set (map fst to_add) order = true ->
     clone_with_prefixes nm st n order
     = (fold_left (fun s p => match assoc_p p to_add with
                              | Some ns => map_insert s KNs c (VNamespace p ns)
                              | None => s end) order st1, MDone (Some c)).
 Proof.
-  intros nm st n z order st1 c Hc Hm Ht inherited to_add Hs. unfold clone_with_prefixes. rewrite Hc, Hm, Ht.
-  fold inherited. fold to_add. rewrite Hs. reflexivity.
+  intros nm st n z order st1 c Hc Hm Ht inherited no_ns_top to_add Hs. unfold clone_with_prefixes. rewrite Hc, Hm, Ht.
+  fold inherited. fold no_ns_top. fold to_add. rewrite Hs. reflexivity.
 Qed.
 Print Assumptions C12_clone_with_prefixes_effect.
 
